@@ -219,11 +219,12 @@ def gen_presentation(rng, case, cfg):
     pres['S'], pres['R'], pres['L'] = S, R, Lo
     if 'ctype' in kinds and rng.random() < 0.5:
         pres['ctype'] = {
-            'S': rng.choice(['list', 'tuple', 'set', 'keys', 'iter']),
-            'R': rng.choice(['list', 'tuple', 'set', 'iter']),
+            # collections only: a one-shot iterator is not a collection,
+            # and a correct constructor may well iterate its arguments twice
+            'S': rng.choice(['list', 'tuple', 'set', 'keys']),
+            'R': rng.choice(['list', 'tuple', 'set']),
             'S0': rng.choice(['list', 'set', 'tuple']),
-            'lab': rng.choice(['list', 'tuple', 'set', 'frozenset',
-                               'iter'])}
+            'lab': rng.choice(['list', 'tuple', 'set', 'frozenset'])}
     if 'bijection' in kinds and rng.random() < 0.4:
         pres['fresh'] = True
     if 'S0' in kinds and rng.random() < 0.3:
